@@ -254,7 +254,7 @@ def replay_threaded(arg):
 
     rng = random.Random(seed)
     strat = E.make_strategy(stratspec, rng)
-    sched = detsched.Scheduler(strat, preempt_files=("uberjob/progress/_simple_progress_observer.py",), opcode=False, step_budget=200000)
+    sched = detsched.Scheduler(strat, preempt_files=("uberjob/progress/_simple_progress_observer.py", "uberjob/progress/_html_progress_observer.py"), opcode=False, step_budget=400000)
     outputs = []
     final = {}
     thread_exc = []
